@@ -626,6 +626,17 @@ func genC17(r *simrt.Rand, tier string) any {
 				Stall: []time.Duration{5 * time.Millisecond, 800 * time.Millisecond, 3 * time.Second, 7 * time.Second}[r.Int(4)]})
 		}
 	}
+	if sc.Export && r.Pct(15) {
+		// concurrent-shutdown motif: a request is held up in the backend (well inside the 5 s stop grace)
+		// while two administrators shut the export down almost at the same time
+		sc.Stalls = []simfs.Fault{{Op: []string{"Lstat", "ReadDir", ""}[r.Int(3)], Nth: 1 + r.Int(4), Kind: "stall", Stall: time.Duration(800+r.Int(2000)) * time.Millisecond}}
+		sc.Clients[0].StartMs = 0
+		sc.Clients[0].Steps = []C17Step{{Op: "lookup"}, {Op: "getattr"}}
+		sc.AcceptErrs = nil
+		at := 20 + r.Int(300)
+		ops := []string{"close", "unexport"}
+		sc.Admins = [][]C17Admin{{{AtMs: at, Op: ops[r.Int(2)]}}, {{AtMs: at + []int{0, 1, 50, 400}[r.Int(4)], Op: ops[r.Int(2)]}}}
+	}
 	return sc
 }
 
